@@ -267,6 +267,12 @@ AltOk(list, alt) ==
         /\ \A nm \in {"fold", "tryf", "foreach"} :
               Has(alt, nm) => \A i \in 1..Len(alt[nm]) : PartOk(list, alt[nm][i])
         /\ Has(alt, "hint_end") => (alt.hint_end[1] = 0 /\ alt.hint_end2[1] = 0)
+        \* last() and count() on the iterator itself, fresh and after k calls of next()
+        /\ Has(alt, "lastd") => \A i \in 1..Len(alt.lastd) :
+              LET k == alt.lastd[i][1]
+              IN  /\ k <= n
+                  /\ alt.lastd[i][2] = (IF k < n THEN << list[n] >> ELSE <<>>)
+                  /\ alt.lastd[i][3] = n - k
 
 \* ---- fixed-layout fields (C09)
 SrFieldsOk(b, v) ==
